@@ -75,13 +75,32 @@ def run(ctx):
     ri, _ = ctx.correspond(["infer_text\t" + d for d in docs], "from_str on documents",
                            lambda l, r: r.startswith("OK") and r[3:4] in "ATO")
     ctx.correspond(["infer_value\t" + d for d in docs], "From<&serde_json::Value> on documents")
+    # documents with repeated member names: consistent repetitions must be accepted, conflicting ones
+    # are outside the quantifier (decided by the extracted dup_consistent, the theorem's hypothesis)
+    dups = []
+    for v1, v2 in [('1', '1'), ('1', 's'), (['1'], ['1', '1']), (['1'], ['s']), (None, None), (None, '1'),
+                   ((('x', '1'),), (('x', '1'),)), ((('x', '1'),), (('x', 's'),)), ([], []), ([], ['1']),
+                   (['1', 's'], ['1', 's']), (['1', 's'], ['s', '1'])]:
+        dups += [(('a', v1), ('a', v2)), (('a', v1), ('b', 't'), ('a', v2)), [(('a', v1), ('a', v2)), (('a', v1),)],
+                 (('k', (('a', v1), ('a', v2))),), (('a', v1), ('a', v2), ('a', v1))]
+    dup_docs = list(dict.fromkeys(doc_str(d) for d in dups))
+    rd, _ = ctx.correspond(["infer_text\t" + d for d in dup_docs], "from_str on documents with repeated member names",
+                           lambda l, r: True)
+    ctx.correspond(["infer_value\t" + d for d in dup_docs], "From<&Value> on documents with repeated member names")
+    if rd and rd[0] is not None:
+        cons = vlib.model_bools(["dup_consistent\t" + d for d in dup_docs])
+        for d, r, c in zip(dup_docs, rd, cons):
+            if c and not r.startswith("OK "):
+                ctx.fail("a document whose repeated member names carry equally shaped values was rejected", "infer_text\t" + d, r)
+        docs = docs + [d for d, c in zip(dup_docs, cons) if c]
+        ri = ri + [r for r, c in zip(rd, cons) if c]
     # oracle: the document is a member of its own shape (KF1 excepted), inference succeeds
     q, meta = [], []
     for d, r in zip(docs, ri):
         if r is None:
             continue
         if not r.startswith("OK "):
-            ctx.fail("inference of a valid duplicate-free document did not succeed", "infer_text\t" + d, r)
+            ctx.fail("inference of a valid document without conflicting duplicates did not succeed", "infer_text\t" + d, r)
             continue
         q.append("mem\t%s\t%s" % (d, r[3:])); meta.append((d, r))
     bad = [(d, r) for (d, r), ok in zip(meta, vlib.model_bools(q)) if not ok]
